@@ -260,6 +260,13 @@ class Driver:
                 self.fx.resolution = st["v"]
             return None
         if op == "raise":
+            kind = st.get("kind", "")
+            if kind == "KeyboardInterrupt":
+                raise KeyboardInterrupt()
+            if kind == "SystemExit":
+                raise SystemExit(3)
+            if kind == "GeneratorExit":
+                raise GeneratorExit()
             raise DriverAbort()
         if op == "guarded":
             cond = self.opnd(st["cond"])
@@ -275,14 +282,12 @@ class Driver:
                 return None
             try:
                 return rt.guarded(cond)(fn)()
-            except _Propagate as p:
-                raise p.exc
             finally:
                 self.extra = {"entered": flag["entered"]}
         if op == "try":
             try:
                 self.run_steps(st["body"], nested=True)
-            except _Propagate:
+            except BaseException:            # a user try/except that swallows whatever its body raised
                 self.extra = {"caught": True}
                 return None
             self.extra = {"caught": False}
@@ -298,10 +303,7 @@ class Driver:
                         return self.opnd(br["ret"])
                     return fn
                 return self.opnd(br)
-            try:
-                return self.br.if_then_else(cond, mk(st["t"]), mk(st["f"]))
-            except _Propagate as p:
-                raise p.exc
+            return self.br.if_then_else(cond, mk(st["t"]), mk(st["f"]))
         if op == "peek":
             return self.opnd(st["a"])
         if op == "getitem":
@@ -343,8 +345,6 @@ class Driver:
                 return ret
             try:
                 r = rt.snark(fn)(*[self.opnd(x) for x in st["args"]], **{k: self.opnd(v) for k, v in st.get("kw", {}).items()})
-            except _Propagate as p:
-                raise p.exc
             finally:
                 self.extra = {"inner_args": captured.get("inner_args", []), "inner_ret": captured.get("inner_ret", []),
                               "npub_at_ret": captured.get("npub_at_ret", -1), "npriv_at_ret": captured.get("npriv_at_ret", -1),
@@ -374,6 +374,12 @@ class Driver:
             return [s, {"p": flat[0] * flat[-1]}]
         if how == "first":
             return args[0]
+        if how == "dup":
+            # the same secret object occurs several times in the result
+            flat = [x for x in self._flat(args) if isinstance(x, (self.rt.LinComb, self.fx.LinCombFxp, self.bo.LinCombBool))]
+            if not flat:
+                return [1, 1]
+            return (flat[0], [flat[0], flat[-1]], {"again": flat[0]})
         if how == "const":
             return (1, 2.5, "text", None)
         raise ValueError(how)
@@ -422,9 +428,7 @@ class Driver:
         try:
             res = self.do(st)
             out = "ok"
-        except _Propagate:
-            raise
-        except Exception as e:  # noqa
+        except BaseException as e:  # noqa  (programs raise KeyboardInterrupt / SystemExit / GeneratorExit on purpose)
             exc = e
             out = "raise"
         finally:
@@ -445,7 +449,7 @@ class Driver:
         ev["chg"] = self.changes(skip=len(self.regs) - 1)
         self.emit(ev)
         if exc is not None and nested:
-            raise _Propagate(exc)
+            raise exc          # the ORIGINAL exception object travels on through the library code around this body
 
     def deltas(self):
         rec = self.rec
